@@ -544,6 +544,10 @@ func negativeFieldCasesLocal() []*Case {
 			"type In struct{ A int; B string }\ntype Out struct{ A int; B string }\n", "// goverter:converter\n// goverter:ignoreUnexported\ntype Converter interface {\n\t// goverter:map B hidden\n\tConvert(source In) Out2\n}\ntype Out2 struct{ A int; hidden string }\n"),
 		mk("delegate_with_field_settings", "field settings on a method that delegates to an extend function of the same signature",
 			"type In struct{ A int; B string }\ntype Out struct{ A int; B string }\nfunc Ext(i In) Out { return Out{} }\n", "// goverter:converter\n// goverter:extend Ext\ntype Converter interface {\n\t// goverter:ignore B\n\tConvert(source In) Out\n}\n"),
+		mk("overlap_default_assign_path", "field settings on the pointer variant while a sibling S -> *T with goverter:default converts the struct inline",
+			"type In struct{ Name, Title string }\ntype Out struct{ Title string }\nfunc NewOut() *Out { return &Out{} }\n", "// goverter:converter\ntype Converter interface {\n\t// goverter:default NewOut\n\tConvertA(source In) *Out\n\t// goverter:map Name Title\n\tConvertB(source *In) *Out\n}\n"),
+		mk("overlap_unnamed", "field settings on the pointer variant of an unnamed struct pair while a sibling converts the structs inline",
+			"type W struct{ I struct{ Name, Title string } }\ntype WT struct{ I struct{ Title string } }\n", "// goverter:converter\ntype Converter interface {\n\tConvertA(source W) WT\n\t// goverter:map Name Title\n\tConvertB(source *struct{ Name, Title string }) *struct{ Title string }\n}\n"),
 		mk("overlap_automap", "autoMap on the pointer variant while the struct variant is what gets used",
 			"type In struct{ A int; H Hold }\ntype Hold struct{ B int }\ntype Out struct{ A int; B int }\n", "// goverter:converter\n// goverter:ignoreMissing\ntype Converter interface {\n\t// goverter:autoMap H\n\tConvertPtr(source *In) *Out\n\tConvertList(source []In) []Out\n}\n"),
 		mk("overlap_matchignorecase", "matchIgnoreCase on the pointer variant while the struct variant is what gets used",
